@@ -512,6 +512,11 @@ let handle (req : sexp) : String.t =
             jobj ["verdict", jstr verdict; "lexagree", jbool lexagree; "lexed", jbool (lexed <> None); "roundtrip", jbool rt]
         | _ -> bad "parsestr case" in
       jobj ["status", jstr "ok"; "results", jlist one (lst cases)]
+  | L [A "renderexprs"; es] ->
+      (* Lex.render_expr: the model's printer down to characters (every operand in parentheses, numbers as integer
+         literals or <m>e-<k>); null where a number is not a non-negative decimal fraction in lowest terms *)
+      let one e = (match render_expr (expr_of e) with Some s -> jstr (os s) | None -> "null") in
+      jobj ["status", jstr "ok"; "texts", jlist one (lst es)]
   | L [A "symrhs"; A tries; inp] ->
       (* sympytools.rhs_matrix / jacobi_matrix of the mirror, evaluated at an input point *)
       let o = the_ode () in
